@@ -17,7 +17,7 @@ echo "== demo on unpatched tree: $RUN"
 ( cd $T/repo; [[ "$RUN" == *" ./"* || "$RUN" == *" ."* ]] || cd $DEMODIR; timeout 300 bash -c "$RUN" > $T/base.log 2>&1 ); B=$?
 echo "   exit=$B"; [ $B -ne 0 ] && tail -5 $T/base.log
 if ! git apply --check $D/patch.diff 2>/dev/null && ! patch -p1 --dry-run < $D/patch.diff >/dev/null 2>&1; then echo "PATCH-DOES-NOT-APPLY"; patch -p1 --dry-run < $D/patch.diff | tail -5; exit 3; fi
-patch -p1 -s < $D/patch.diff || exit 3
+patch -p1 -s --no-backup-if-mismatch < $D/patch.diff || exit 3
 go build ./... || { echo NO-COMPILE; exit 4; }
 echo "== demo on patched tree"
 ( cd $T/repo; [[ "$RUN" == *" ./"* || "$RUN" == *" ."* ]] || cd $DEMODIR; timeout 300 bash -c "$RUN" > $T/mut.log 2>&1 ); M=$?
